@@ -224,6 +224,122 @@ Proof.
       * apply count_visible_forest.
 Qed.
 
+(* ---- the same, stated on the objects alone: consistent doubly linked child lists ---- *)
+Definition ptr_ok (L : Z -> option oobj) (o : oobj) : Prop :=
+  (forall m, o_next o = Some m -> exists o', L m = Some o' /\ o_prev o' = Some (o_num o) /\ o_parent o' = o_parent o) /\
+  (forall m, o_prev o = Some m -> exists o', L m = Some o' /\ o_next o' = Some (o_num o) /\ o_parent o' = o_parent o) /\
+  (forall m, o_first o = Some m -> exists o', L m = Some o' /\ o_parent o' = Some (o_num o) /\ o_prev o' = None) /\
+  (forall m, o_last o = Some m -> exists o', L m = Some o' /\ o_parent o' = Some (o_num o) /\ o_next o' = None) /\
+  (o_first o = None <-> o_last o = None).
+
+Lemma head_obj pages t rest parent pv :
+  exists o, In o (objs_forest pages parent pv (t :: rest)) /\ o_num o = nref t /\ o_prev o = pv /\
+            o_parent o = Some parent /\ o_next o = hd_ref rest.
+Proof.
+  destruct t as [r ti pg cl ks]. cbn [objs_forest]. rewrite objs_tree_eq. eexists. split; [left; reflexivity|].
+  cbn. repeat split.
+Qed.
+
+Lemma last_obj pages : forall l parent pv m, last_ref l = Some m ->
+  exists o, In o (objs_forest pages parent pv l) /\ o_num o = m /\ o_next o = None /\ o_parent o = Some parent.
+Proof.
+  induction l as [|t l IH]; intros parent pv m H; [discriminate|].
+  destruct l as [|t' l'].
+  - cbn in H. inversion H; subst. destruct (head_obj pages t [] parent pv) as (o & Hin & Hn & _ & Hp & Hx).
+    exists o. repeat split; assumption.
+  - change (last_ref (t :: t' :: l')) with (last_ref (t' :: l')) in H.
+    destruct (IH parent (Some (nref t)) m H) as (o & Hin & Ho). exists o. split; [|exact Ho].
+    cbn [objs_forest]. apply in_or_app. right. exact Hin.
+Qed.
+
+Definition ctx_prev (L : Z -> option oobj) (parent : Z) (pv : option Z) (here : option Z) : Prop :=
+  match pv with
+  | Some m => exists o', L m = Some o' /\ o_next o' = here /\ o_parent o' = Some parent
+  | None => True
+  end.
+Definition ctx_next (L : Z -> option oobj) (parent : Z) (next : option Z) (here : Z) : Prop :=
+  match next with
+  | Some m => exists o', L m = Some o' /\ o_prev o' = Some here /\ o_parent o' = Some parent
+  | None => True
+  end.
+
+Definition tree_ptrs_P pages (L : Z -> option oobj) (t : ntree) : Prop :=
+  forall parent pv next,
+    (forall o, In o (objs_tree pages parent pv next t) -> L (o_num o) = Some o) ->
+    ctx_prev L parent pv (Some (nref t)) -> ctx_next L parent next (nref t) ->
+    Forall (ptr_ok L) (objs_tree pages parent pv next t).
+
+Lemma forest_ptrs pages L : forall l, Forall (tree_ptrs_P pages L) l ->
+  forall parent pv, (forall o, In o (objs_forest pages parent pv l) -> L (o_num o) = Some o) ->
+  ctx_prev L parent pv (hd_ref l) -> Forall (ptr_ok L) (objs_forest pages parent pv l).
+Proof.
+  induction 1 as [|k rest Hk _ IH]; intros parent pv HL Hc; [constructor|].
+  cbn [objs_forest]. apply Forall_app. split.
+  - apply Hk.
+    + intros o Ho. apply HL. cbn [objs_forest]. apply in_or_app. now left.
+    + exact Hc.
+    + destruct rest as [|t' rest']; [exact I|]. cbn [hd_ref ctx_next].
+      destruct (head_obj pages t' rest' parent (Some (nref k))) as (o' & Hin & Hn & Hp & Hpa & _).
+      exists o'. rewrite <- Hn. split; [|split; assumption].
+      apply HL. cbn [objs_forest]. apply in_or_app. now right.
+  - apply IH.
+    + intros o Ho. apply HL. cbn [objs_forest]. apply in_or_app. now right.
+    + cbn [ctx_prev]. destruct (head_obj pages k rest parent pv) as (o' & Hin & Hn & _ & Hpa & Hnx).
+      exists o'. rewrite <- Hn. split; [apply HL; exact Hin|split; assumption].
+Qed.
+
+Lemma tree_ptrs pages L : forall t, tree_ptrs_P pages L t.
+Proof.
+  apply ntree_ind2. intros r ti pg cl ks IH parent pv next HL Hp Hn.
+  rewrite objs_tree_eq in *. cbn [nref] in *. constructor.
+  - unfold ptr_ok. cbn [o_num o_next o_prev o_first o_last o_parent]. split; [|split; [|split; [|split]]].
+    + intros m E. subst next. exact Hn.
+    + intros m E. subst pv. exact Hp.
+    + intros m E. destruct ks as [|t' ks']; [discriminate|]. cbn in E. inversion E; subst m.
+      destruct (head_obj pages t' ks' r None) as (o' & Hin & Hnum & Hpv & Hpa & _).
+      exists o'. rewrite <- Hnum. split; [apply HL; now right|split; assumption].
+    + intros m E. destruct (last_obj pages ks r None m E) as (o' & Hin & Hnum & Hnx & Hpa).
+      exists o'. rewrite <- Hnum. split; [apply HL; now right|split; assumption].
+    + destruct ks as [|t' [|t'' ks']]; cbn; split; intros; try reflexivity; try discriminate.
+      exfalso. clear -H. revert t'' H. induction ks' as [|x ks' IHk]; intros t'' H; [discriminate|]. exact (IHk x H).
+  - apply (forest_ptrs pages L ks IH).
+    + intros o Ho. apply HL. now right.
+    + exact I.
+Qed.
+
+Theorem outline_pointers_consistent pages n0 f objs root :
+  add_outlines_model pages n0 f = Some (objs, root) ->
+  Forall (ptr_ok (lookup objs)) objs /\
+  match root with
+  | Some (rn, rc, rf, rl) =>
+      (forall m, rf = Some m -> exists o, lookup objs m = Some o /\ o_parent o = Some rn /\ o_prev o = None) /\
+      (forall m, rl = Some m -> exists o, lookup objs m = Some o /\ o_parent o = Some rn /\ o_next o = None) /\
+      (rf = None <-> rl = None)
+  | None => True
+  end.
+Proof.
+  unfold add_outlines_model. destruct (forallb (pages_ok (length pages)) f); [|discriminate].
+  destruct (number n0 f) as [nf n1] eqn:En.
+  destruct (number_ok pages f n0 nf n1 n1 None En) as (H1 & H2 & H3 & H4).
+  destruct nf as [|t nf'].
+  - intros H. inversion H; subst. split; [constructor|exact I].
+  - remember (t :: nf') as nf eqn:Enf. intros H. injection H as <- <-.
+    assert (Hnd : NoDup (map o_num (objs_forest pages n1 None nf))).
+    { rewrite H3. apply (zrange_nodup (Z.to_nat (n1 - n0))). reflexivity. }
+    assert (HL : forall o, In o (objs_forest pages n1 None nf) -> lookup (objs_forest pages n1 None nf) (o_num o) = Some o)
+      by (intros o Ho; now apply lookup_found).
+    split.
+    + apply (forest_ptrs pages). { rewrite Forall_forall. intros x _. apply tree_ptrs. } { exact HL. } { exact I. }
+    + split; [|split].
+      * intros m E. subst nf. cbn in E. inversion E; subst m.
+        destruct (head_obj pages t nf' n1 None) as (o & Hin & Hn & Hpv & Hpa & _).
+        exists o. rewrite <- Hn. split; [now apply HL|split; assumption].
+      * intros m E. destruct (last_obj pages nf n1 None m E) as (o & Hin & Hn & Hnx & Hpa).
+        exists o. rewrite <- Hn. split; [now apply HL|split; assumption].
+      * subst nf. split; [discriminate|]. intros E. exfalso. clear -E. revert t E.
+        induction nf' as [|x l IHl]; intros t E; [discriminate|]. exact (IHl x E).
+Qed.
+
 Example outline_example :
   add_outlines_model [3; 9] 10
     [ONode 100 0 false [ONode 101 0 true [ONode 102 1 false []]; ONode 103 1 false []]; ONode 104 1 true []] =
